@@ -251,11 +251,29 @@ def _call(api, spec, cached, seed_arr):
     ins, out, sizes, shapes = _materialise(spec)
     opt = _dec_opt(spec["optimize"])
     kw = dict(spec["kw"])
+    consts = kw.pop("constants_at", None)
+    kw.pop("constants_seed", None)
     canon = spec["canonicalize"]
     n = len(ins)
-    arrays = _arrays(shapes, seed_arr)
-    fresh = _arrays(shapes, seed_arr + 7919)
+    arrays = _full_arrays(spec, shapes, seed_arr)
+    fresh = _full_arrays(spec, shapes, seed_arr + 7919)
     obs = {"api": api}
+    if consts is not None and api in ("array_contract_expression", "einsum_expression"):
+        # an expression with constant operands: requested with the constant ARRAYS, applied to the others
+        try:
+            with warnings.catch_warnings():
+                warnings.simplefilter("ignore")
+                cdict = {i: arrays[i] for i in consts}
+                if api == "array_contract_expression":
+                    ex = ctg.array_contract_expression(ins, out, shapes=shapes, optimize=opt, canonicalize=canon, cache=cached, constants=cdict, **kw)
+                else:
+                    args = [arrays[i] if i in consts else shapes[i] for i in range(n)]
+                    ex = ctg.einsum_expression(_eq_of(spec), *args, optimize=opt, cache=cached, constants=list(consts), **kw)
+                obs["value"] = _norm_value(ex(*[arrays[i] for i in range(n) if i not in consts]))
+                obs["fresh_value"] = _norm_value(ex(*[fresh[i] for i in range(n) if i not in consts]))
+        except Exception as e:  # noqa: BLE001
+            obs = {"api": api, "raised": type(e).__name__, "msg": str(e)[:160]}
+        return obs
     try:
         with warnings.catch_warnings():
             warnings.simplefilter("ignore")
@@ -313,10 +331,21 @@ def _size_multiset(ins, sizes):
     return [sizes[ix] for ix in seen]
 
 
+def _full_arrays(spec, shapes, seed_arr):
+    """the operands of a call: seeded arrays; operands marked constant come from the spec's own constants seed (the
+    SAME arrays whatever arrays the expression is later applied to)"""
+    arrays = _arrays(shapes, seed_arr)
+    consts = spec["kw"].get("constants_at")
+    if consts is not None:
+        carr = _arrays(shapes, 50000 + int(spec["kw"].get("constants_seed", 0)))
+        arrays = [carr[i] if i in consts else a for i, a in enumerate(arrays)]
+    return arrays
+
+
 def _reference(spec, seed_arr):
     ins, out, sizes, shapes = _materialise(spec)
     eq = _ref_eq(ins, out)
-    return np.einsum(eq, *_arrays(shapes, seed_arr)), np.einsum(eq, *_arrays(shapes, seed_arr + 7919))
+    return np.einsum(eq, *_full_arrays(spec, shapes, seed_arr)), np.einsum(eq, *_full_arrays(spec, shapes, seed_arr + 7919))
 
 
 def _val_eq(a, b, exact):
@@ -395,6 +424,10 @@ def pools(tier="quick"):
     P["kwargs prefer_einsum"] = [mkspec(ins, out, S, "greedy", kw) for kw in ({}, {"prefer_einsum": True}, {"prefer_einsum": False})]
     hy = (("a", "b", "c"), ("c", "b", "d"), ("d", "a"))
     P["kwargs sort_contraction_indices"] = [mkspec(hy, ("b",), S, "greedy", kw) for kw in ({}, {"sort_contraction_indices": True}, {"sort_contraction_indices": False})]
+    # expressions with constant operands: same equation, shapes, optimize and constant POSITIONS, different constant ARRAYS
+    ins5, out5 = (("a", "b"), ("b", "c"), ("c", "d"), ("d", "a")), ("a",)
+    P["constant arrays"] = [mkspec(ins5, out5, S, "greedy", {"constants_at": [0, 2], "constants_seed": k}) for k in (0, 1, 2)] + [
+        mkspec(ins5, out5, S, "greedy", {"constants_at": [1], "constants_seed": 0}), mkspec(ins5, out5, S, "greedy", {})]
     P["kwargs combined"] = [mkspec(ins, out, S, "greedy", kw) for kw in (
         {"strip_exponent": True, "prefer_einsum": True}, {"strip_exponent": True}, {"prefer_einsum": True}, {"implementation": "autoray", "prefer_einsum": True})]
     # relabelling (same structure, other names)
